@@ -37,6 +37,12 @@ theorem second_check_clean (n : NodeInfo) (hw : WFNode n) (ws : List WorkloadRes
     (hfit : Fits n ws) : resourceDiffs (fixNodeResource n ws).1 ws = [] :=
   (fix_consistent n hw ws hws hfit).1
 
+/-- the oracle's decidable predicates: fitting workloads and a drift that the check sees ⇒
+    after the repair `consistentB` holds of the stored usage -/
+theorem fix_consistent_decidable (n : NodeInfo) (hw : WFNode n) (ws : List WorkloadRes) (hws : ∀ w ∈ ws, WFW w)
+    (hfit : Fits n ws) (hd : resourceDiffs n ws ≠ []) : consistentB (fixNodeResource n ws).1.usage ws = true :=
+  (consistentB_iff _ _).2 ((fix_consistent n hw ws hws hfit).2.2.2 hd)
+
 /-- Without differences the repair changes nothing and reports nothing. -/
 theorem fix_noop_when_no_diffs (n : NodeInfo) (ws : List WorkloadRes) (h : resourceDiffs n ws = []) :
     fixNodeResource n ws = (n, n.usage, []) := by
